@@ -385,7 +385,10 @@ class C07(Prop):
                 for ln in f:
                     parts = ln.rstrip("\n").split("\t")
                     if len(parts) >= 6:
-                        calls.append({"idx": int(parts[0]), "proxied": parts[4] == "1", "argv": json.loads(parts[5])})
+                        try:
+                            calls.append({"idx": int(parts[0]), "proxied": parts[4] == "1", "argv": json.loads(parts[5])})
+                        except ValueError:
+                            continue      # (a record torn by a killed writer)
         except OSError:
             pass
         try:
@@ -393,7 +396,10 @@ class C07(Prop):
                 for ln in f:
                     parts = ln.rstrip("\n").split("\t")
                     if len(parts) >= 5 and parts[2] == "point":
-                        points.append((parts[3], int(parts[4])))
+                        try:
+                            points.append((parts[3], int(parts[4])))
+                        except ValueError:
+                            continue
         except OSError:
             pass
         return res, calls, points
@@ -564,7 +570,7 @@ class C07(Prop):
                     parts = ln.rstrip("\n").split("\t")
                     if len(parts) >= 6 and parts[4] == "1":
                         proxied_ran = True
-                    if fault["family"] == "git" and len(parts) >= 6 and int(parts[0]) == fault["idx"]:
+                    if fault["family"] == "git" and len(parts) >= 6 and parts[0].isdigit() and int(parts[0]) == fault["idx"]:
                         fired = True
         except OSError:
             pass
